@@ -39,6 +39,7 @@ func checkC07(p *Prog, r *Report) {
 	r.rule("C07.F7", "every path through a complete group seals every parity shard or calls skipParity, then resets shardCount and maxSize; sealData runs exactly once per encode", 3)
 	r.rule("C07.F8", "received data packets are fed to KCP.Input before and independently of fecDecoder.decode", 1)
 	r.rule("C07.F9", "paws = 0xffffffff / shardSize * shardSize at every store; ids advance modulo paws (C12.K5)", 3)
+	r.rule("C07.F12", "parity reaches the decoder on the listener path too: in Listener.packetInput a datagram from which no conversation id could be read (every parity packet) is fed to the session that exists for its source — no condition between the lookup and the feed requires hasConv", 1)
 	r.rule("C07.F11", "every construction site of the codec (encoder, decoder, decoder retune) passes the same options to reedsolomon.New: sender and receiver compute parity with the same matrix", 3)
 	r.rule("C07.F10", "expected type by position: seqid % shardSize < dataShards <=> data; the discard horizon compares group ages with the wrap-safe signed difference", 2)
 
@@ -71,6 +72,7 @@ func checkC07(p *Prog, r *Report) {
 	checkFECDecode(p, r, dec)
 	checkFECEncode(p, r, enc)
 	checkFECSession(p, r)
+	checkListenerFeedsParity(p, r)
 
 	// ---- F9: delegate to C12.K5
 	{
@@ -1044,6 +1046,12 @@ func checkFECSession(p *Prog, r *Report) {
 			continue
 		}
 		arg := p.Term(s.Call.Args[0])
+		if arg.Op == "var" {
+			// pkt := r[2:sz]; Input(pkt, …)
+			if ra := p.resolveSingleDefs(fi, arg); ra.Op == "slice" {
+				arg = ra
+			}
+		}
 		pt, _ := c.PointOf(s.Call)
 		fs := fa.AtNode(s.Call)
 		// recovered: the argument's base is the range variable over decode's result
@@ -1271,4 +1279,127 @@ func nonZeroCoefs(l *Linear) int {
 		}
 	}
 	return n
+}
+
+// checkListenerFeedsParity: C07.F12. hasConv is the boolean local that some arm sets to true; a feed is a call
+// s.kcpInput(data) with s bound by the table lookup. Some feed must be governed only by conditions that hold
+// when hasConv is false: `!hasConv`, a disjunction with the disjunct `!hasConv`, or conditions that mention
+// neither hasConv nor the header values read under it.
+func checkListenerFeedsParity(p *Prog, r *Report) {
+	lp := p.FuncByName("(*Listener).packetInput")
+	c := p.CFG(lp)
+	fSess := p.Field("Listener", "sessions")
+	var hasConv *types.Var
+	guarded := map[*types.Var]bool{} // locals assigned in the blocks that set hasConv = true (conv, sn)
+	inspectBody(lp, func(x ast.Node) bool {
+		as, ok := x.(*ast.AssignStmt)
+		if !ok || len(as.Lhs) != 1 || len(as.Rhs) != 1 || as.Tok != token.ASSIGN {
+			return true
+		}
+		if v := identVar(p, as.Lhs[0]); v != nil && p.Term(as.Rhs[0]).Op == "true" {
+			if b, isB := v.Type().Underlying().(*types.Basic); isB && b.Kind() == types.Bool {
+				hasConv = v
+			}
+		}
+		return true
+	})
+	if hasConv == nil {
+		r.bad("C07.F12", lp.Name, p.Pos(lp.Node), "parity fed to the existing session", "no 'conversation id was read' flag found in the listener", "")
+		return
+	}
+	for _, a := range p.Assignments(lp, hasConv) {
+		pt, ok := c.PointOf(a.Node)
+		if !ok || a.Rhs == nil || p.Term(a.Rhs).Op != "true" {
+			continue
+		}
+		for _, nd := range pt.B.Nodes {
+			if as, ok := nd.(*ast.AssignStmt); ok {
+				for _, l := range as.Lhs {
+					if v := identVar(p, l); v != nil && v != hasConv {
+						guarded[v] = true
+					}
+				}
+			}
+		}
+	}
+	// the session variable of the lookup
+	var sv *types.Var
+	inspectBody(lp, func(x ast.Node) bool {
+		as, ok := x.(*ast.AssignStmt)
+		if !ok || len(as.Lhs) != 2 || len(as.Rhs) != 1 {
+			return true
+		}
+		if ie, isI := ast.Unparen(as.Rhs[0]).(*ast.IndexExpr); isI {
+			if t := p.Term(ie.X); t.Op == "fld" && t.Obj == fSess {
+				sv = identVar(p, as.Lhs[0])
+			}
+		}
+		return true
+	})
+	okFeed := false
+	why := "the listener never feeds the session found for the source address"
+	for _, s := range p.CallsTo(p.Method("UDPSession", "kcpInput")) {
+		if s.Fn != lp || s.Recv == nil || s.Recv.Op != "var" {
+			continue
+		}
+		if sv != nil && s.Recv.Obj != types.Object(sv) {
+			continue // (when the lookup is hidden in a helper every non-created receiver counts)
+		}
+		sv := sv
+		if sv == nil {
+			sv, _ = s.Recv.Obj.(*types.Var)
+		}
+		// created sessions are bound by newUDPSession: the feed of the existing one is dominated by no such assignment
+		pt, _ := c.PointOf(s.Call)
+		isNew := false
+		for _, a := range p.Assignments(lp, sv) {
+			if a.Rhs == nil {
+				continue
+			}
+			if call, isC := ast.Unparen(a.Rhs).(*ast.CallExpr); isC && p.Callee(call) == p.Func("newUDPSession") {
+				if ap, okA := c.PointOf(a.Node); okA && c.Dominates(ap, pt) {
+					isNew = true
+				}
+			}
+		}
+		if isNew {
+			continue
+		}
+		bad := ""
+		for _, ct := range c.localDominatingConds(pt) {
+			for _, a := range Conjuncts(ct) {
+				mentions := false
+				a.Walk(func(t *Term) {
+					if t.Op == "var" {
+						if v, ok := t.Obj.(*types.Var); ok && (v == hasConv || guarded[v]) {
+							mentions = true
+						}
+					}
+				})
+				if !mentions {
+					continue
+				}
+				// true when hasConv is false?
+				okA := false
+				ds := []*Term{a}
+				if a.Op == "||" {
+					ds = a.Args
+				}
+				for _, d := range ds {
+					if d.Key() == not(tVar(hasConv)).Key() {
+						okA = true
+					}
+				}
+				if !okA {
+					bad = pretty(a.Key())
+				}
+			}
+		}
+		if bad == "" {
+			okFeed = true
+		} else {
+			why = "the session found for the source address is fed only under " + bad + ", which fails for a datagram without a readable conversation id"
+		}
+	}
+	r.check(okFeed, "C07.F12", lp.Name, p.Pos(lp.Node), "parity fed to the existing session", "fed under !hasConv || conv == s.kcp.conv", why+": parity packets carry no KCP header, so none reaches the FEC decoder of an accepted session and lost data is never reconstructed on the listener side")
 }
